@@ -60,7 +60,7 @@ Proof.
 Qed.
 
 Theorem get_after_set_label : forall r n b w,
-  repo_exists r w = true -> label_name_ok n = true -> b <> EmptyString ->
+  repo_exists r w = true -> label_elem_ok n = true -> b <> EmptyString ->
   fst (set_label r n b w) = ROk /\ get_label r n (snd (set_label r n b w)) = Some b.
 Proof.
   intros r n b w Hr Hn Hb. unfold set_label. rewrite Hr, Hn. cbn [negb orb].
@@ -75,7 +75,7 @@ Theorem set_label_frame : forall r n b w,
   forall k, k <> GetArchivePathToLabel r n -> mget k (w_vmeta (snd (set_label r n b w))) = mget k (w_vmeta w).
 Proof.
   intros r n b w. unfold set_label.
-  destruct (negb (repo_exists r w) || negb (label_name_ok n) || String.eqb b EmptyString); cbn [snd]; [auto|].
+  destruct (negb (repo_exists r w) || negb (label_elem_ok n) || String.eqb b EmptyString); cbn [snd]; [auto|].
   split; [reflexivity|]. intros k Hk. cbn [w_vmeta with_vmeta]. apply mget_mput_other. congruence.
 Qed.
 
@@ -194,5 +194,14 @@ Proof.
   cbn [snd w_vmeta]. apply delete_labels_frame. intros; apply Hk.
 Qed.
 
-Lemma label_ok_noslash : forall n, label_name_ok n = true -> noslash n = true.
-Proof. intros n. apply (valid_names_noslash n). Qed.
+Lemma label_ok_noslash : forall n, label_elem_ok n = true -> noslash n = true.
+Proof. intros n H. unfold label_elem_ok in H. apply andb_prop in H. tauto. Qed.
+
+(* the documented alphabet passes core's check *)
+Lemma label_name_elem : forall n, label_name_ok n = true -> label_elem_ok n = true.
+Proof.
+  intros n H. unfold label_elem_ok. rewrite (proj2 (valid_names_noslash n) H), andb_true_r.
+  unfold label_name_ok in H. apply andb_prop in H. destruct H as [H1 H2]. rewrite H1. cbn [andb].
+  destruct (String.eqb n ".") eqn:E1; [apply String.eqb_eq in E1; subst; discriminate H2|].
+  destruct (String.eqb n "..") eqn:E2; [apply String.eqb_eq in E2; subst; discriminate H2|]. reflexivity.
+Qed.
